@@ -326,6 +326,7 @@ func c04(c *Ctx) {
 	c04DatagramBuffers(c)
 	c04PendingInput(c)
 	c04ReporterQueues(c)
+	c04BodyConsumed(c)
 	// per-line hooks of ftp and smtp: the log send is the first thing after a line was read
 	for _, hk := range []struct{ rel, typ, meth, ch string }{{"services/ftp", "Conn", "receiveLine", "rcv"}, {"services/smtp", "conn", "ReadLine", "rcv"}} {
 		fn := p.Method(hk.rel, hk.typ, hk.meth)
